@@ -6,6 +6,7 @@ from typing import Type
 from typing import cast
 
 from pytezos.context.abstract import AbstractContext
+from pytezos.crypto.encoding import is_pkh
 from pytezos.michelson.instructions.base import MichelsonInstruction
 from pytezos.michelson.instructions.base import format_stdout
 from pytezos.michelson.micheline import MichelineLiteral
@@ -149,6 +150,11 @@ class ContractInstruction(MichelsonInstruction, prim='CONTRACT', args_len=1):
             entrypoint_type = get_entrypoint_type(context, entrypoint, address=contract_address)
             if entrypoint_type is None:
                 stdout.append(f'{cls.prim}: skip type checking for {contract_address}')
+                if is_pkh(contract_address):
+                    # NOTE: no script to look at, but an implicit account has the default entrypoint only; it accepts
+                    # unit and (since Mumbai) tickets of any content type
+                    assert entrypoint == 'default', f'implicit account has no entrypoint {entrypoint}'
+                    assert cls.args[0].prim in ('unit', 'ticket'), f'implicit account does not accept {cls.args[0].prim}'
             else:
                 entrypoint_type.assert_type_equal(cls.args[0])
             res = OptionType.from_some(contract_type.from_value(f'{contract_address}%{entrypoint}'))  # type: ignore
